@@ -14,7 +14,7 @@ def rules(t):
     S = consts(t, "SLICE_SIZE"); PAY = consts(t, "NETCODE_MAX_PAYLOAD_BYTES"); PKT = consts(t, "NETCODE_MAX_PACKET_BYTES"); MAC = consts(t, "NETCODE_MAC_BYTES")
     VARINT = 8
     # --- a1: the ack-range cap: every growth of pending_acks is followed, before returning, by the `len > CAP -> remove(0)` trim
-    r = RuleResult("C13.a1", "every growth of pending_acks is trimmed to the cap before the function returns", floor=3)
+    r = RuleResult("C13.a1", "every growth of pending_acks is trimmed to the cap before the function returns", floor=1)
     ap = t.fn("RenetClient::add_pending_ack")
     caps = []
     for br, op, te, fe in t.find_cmp(ap, lambda a: "::len(" in fmt(a) and t.mentions_field(a, "pending_acks"), lambda b: const_eval(b) is not None, None):
